@@ -13,6 +13,7 @@ package rules
 //	R-C09-5  c09_filter.go configured timeoutDuration reaches the limiter's policy (added in the second pass)
 //	R-C09-6  ext2.go       (coordinator) default policy reference comparison in isSamePolicy
 //	R-C09-7  c09_lock.go   dimensions of the multi limiter are independent (added in the third pass)
+//	R-C09-8  c09_ext.go    equality functions of the carry-over decision compare configuration only
 //
 // Mutants tried in /tmp/vw/C09/repo (each compiles; one at a time, on top of fix-1 so that the
 // exit code is meaningful; diffs in /tmp/vw/C09/out/mutants) → obligation that fires:
@@ -112,6 +113,20 @@ package rules
 // methods or closures and decides the dispatch through a func-typed field of Limiter.
 // 17 mutants re-applied on top of the r6, r7 and r8 shapes are all reported.
 //
+// Fourth round of seeded changes (slips inside refactorings, /verif/seeded/C09/{g,h}):
+//
+//	g  helpers extracted, `now := nowFunc()` left above rl.lock.Lock()
+//	     → R-C09-1 |clock read under the instance lock (c09clockReads: a clock read whose value
+//	       flows into a guarded-field store or into a limiter method call belongs to the critical
+//	       section; anything touched before the function's own Lock is touched without it)
+//	   same kind: clock above the Lock in MultiRateLimiter.AcquirePermission; Unlock/read/Lock;
+//	   SetState with `start := nowFunc()` before the Lock. Correct refactoring (clock after the
+//	   Lock) and r1..r8 stay silent.
+//	h  URLRule.DeepEqual as `r.URL == r1.URL` (StringMatch holds the regexp cache `re`)
+//	     → R-C09-8 |compares configuration fields only (c09_ext.go)
+//	   same kind: `r.URL != r1.URL`, `r.id == r1.id`, reflect.DeepEqual(spec1.URLs, spec2.URLs) in
+//	   the policy comparison. Field-by-field simplification stays silent.
+//
 // Not caught by design (arithmetic, see NotDecided): `tokens > maxTokens`, a wrong wait
 // computation, a dropped `rl.cycle = cycle` on the permit path, a wrong refresh period in the MQTT policies.
 //
@@ -182,6 +197,7 @@ func c09(c *core.Ctx) string {
 	c09Policy(c)
 	c09Mqtt(c, lim, fns)
 	c09DefaultRef(c)
+	c09Equality(c)
 	return "Structural necessary conditions of the rate limiter: lock discipline and reject-before-reserve typestate of the two limiter types (path-sensitive, all paths), the complete decision table of the filter's Handle (match → single acquire → 429/rateLimited | wait | pass), the carry-over logic of reload (all paths of the nested loops) and the unit/timeout wiring of the MQTT limiters. Not decided: the token/time arithmetic (per-period release bound, wait bound), value semantics of Match/DeepEqual, interleavings."
 }
 
